@@ -20,7 +20,7 @@ type FuncResult struct {
 }
 
 func newExec(p *Program, fn *ssa.Function, c *Contract, prop string) *Exec {
-	x := &Exec{prog: p, fn: fn, c: c, prop: prop, decls: newDecls(), strLits: map[string]Term{}, classes: map[string]classInfo{}, closures: map[string]Clo{}, loops: map[*ssa.Function]*loopInfo{}, ordinals: map[string]int{}, assumptions: map[string]bool{}, maxPaths: 4096}
+	x := &Exec{prog: p, fn: fn, c: c, prop: prop, decls: newDecls(), strLits: map[string]Term{}, classes: map[string]classInfo{}, closures: map[string]Clo{}, own: map[string]string{}, recFuncs: map[string]*recFunc{}, loops: map[*ssa.Function]*loopInfo{}, ordinals: map[string]int{}, assumptions: map[string]bool{}, maxPaths: 4096}
 	x.bv = c.Ints == "bv64"
 	return x
 }
@@ -81,7 +81,7 @@ func verifyFunc(p *Program, c *Contract, prop string) (res *FuncResult) {
 		x.params[fv.Name()] = fr.vals[fv]
 	}
 	// implicit precondition: pointer receiver is non-nil
-	if c.Recv != "" {
+	if c.Recv != "" && c.Opts["nilrecv"] == "" {
 		if _, ok := fn.Params[0].Type().Underlying().(*types.Pointer); ok {
 			st.assume(x.nonNil(fr.vals[fn.Params[0]]))
 		}
@@ -196,6 +196,10 @@ func (x *Exec) frameCheckAgainst(st *State, snap *State, items []string, oev *sp
 			everything = true
 		case strings.HasPrefix(it, "class "):
 			locs = append(locs, loc{prefix: strings.TrimSpace(it[6:]), whole: true})
+		case strings.HasPrefix(it, "owned "):
+			for _, cl := range x.ownedClasses(strings.TrimSpace(it[6:]), x.c) {
+				locs = append(locs, loc{prefix: cl, whole: true})
+			}
 		case strings.HasSuffix(it, "[*]"):
 			base := oev.eval(parseSpecExpr(strings.TrimSuffix(it, "[*]")))
 			switch b := base.(type) {
@@ -204,7 +208,7 @@ func (x *Exec) frameCheckAgainst(st *State, snap *State, items []string, oev *sp
 				locs = append(locs, loc{prefix: "elem:" + typeStr(et), idx: []Term{b.Base}})
 			case Sc:
 				mt := b.GT.Underlying().(*types.Map)
-				d, v, s := mapClasses(mt)
+				d, v, s := x.mapClassesOf(b.T, mt)
 				for _, cl := range []string{d, v, s} {
 					locs = append(locs, loc{prefix: cl, idx: []Term{b.T}})
 				}
